@@ -386,6 +386,27 @@ KERNELS = [
          model="((f : Int) - ((a : Int) + 8))", model_is_nat=False, imports=["Model.Py"], unfold=[]),
     dict(name="VtGuard", props=["C12"], file="_rpc/_verification.py", func="VerificationTrailer.unpack", kind="prop", loc=("if_containing", "len(view)"), typ="Nat",
          subst={"len(view)": "n"}, params="(n : Nat)", obl="(n : Nat)", call="n", model="(n < 4)", imports=["Model.Py"], unfold=[]),
+    # how far the bind-side decoders move through the view: the fixed part of a context element (24) and each transfer syntax (20), the fixed
+    # part of a bind body (12) and each context (24 + 20 per transfer syntax), the result count word (4) and each result (24), the bind_nak
+    # version count (3) and each version pair (2)
+    dict(name="CtxAbstractAt", props=["C12", "C15"], file="_rpc/_bind.py", func="ContextElement.unpack", loc=('slice_lower_n', 'view', 0), typ="Nat",
+         subst={}, params="", obl="", call="", model="4", imports=["Model.Py"], unfold=[]),
+    dict(name="CtxSkipFixed", props=["C12", "C15"], file="_rpc/_bind.py", func="ContextElement.unpack", loc=('slice_lower_n', 'view', 1), typ="Nat",
+         subst={}, params="", obl="", call="", model="24", imports=["Model.Py"], unfold=[]),
+    dict(name="CtxSkipSyntax", props=["C12", "C15"], file="_rpc/_bind.py", func="ContextElement.unpack", loc=('slice_lower_n', 'view', 2), typ="Nat",
+         subst={}, params="", obl="", call="", model="20", imports=["Model.Py"], unfold=[]),
+    dict(name="BindSkipFixed", props=["C12", "C15"], file="_rpc/_bind.py", func="Bind._unpack", loc=('slice_lower_n', 'view', 0), typ="Nat",
+         subst={}, params="", obl="", call="", model="12", imports=["Model.Py"], unfold=[]),
+    dict(name="BindAdvance", props=["C12", "C15"], file="_rpc/_bind.py", func="Bind._unpack", loc=('slice_lower_n', 'view', 1), typ="Nat",
+         subst={'len(c.transfer_syntaxes)': 'n'}, params="(n : Nat)", obl="(n : Nat)", call="n", model="24 + n * 20", imports=["Model.Py"], unfold=[]),
+    dict(name="AckSkipCount", props=["C12", "C15"], file="_rpc/_bind.py", func="BindAck._unpack", loc=('slice_lower_n', 'view', 1), typ="Nat",
+         subst={}, params="", obl="", call="", model="4", imports=["Model.Py"], unfold=[]),
+    dict(name="AckAdvance", props=["C12", "C15"], file="_rpc/_bind.py", func="BindAck._unpack", loc=('slice_lower_n', 'view', 2), typ="Nat",
+         subst={}, params="", obl="", call="", model="24", imports=["Model.Py"], unfold=[]),
+    dict(name="NakSkipFixed", props=["C12", "C15"], file="_rpc/_bind.py", func="BindNak._unpack", loc=('slice_lower_n', 'view', 0), typ="Nat",
+         subst={}, params="", obl="", call="", model="3", imports=["Model.Py"], unfold=[]),
+    dict(name="NakAdvance", props=["C12", "C15"], file="_rpc/_bind.py", func="BindNak._unpack", loc=('slice_lower_n', 'view', 1), typ="Nat",
+         subst={}, params="", obl="", call="", model="2", imports=["Model.Py"], unfold=[]),
     # how far `VerificationTrailer.unpack` and `Command.unpack` move: past the 8-octet signature, past each command (4 + its value), the value's end
     dict(name="VtSkipSignature", props=["C12"], file="_rpc/_verification.py", func="VerificationTrailer.unpack", loc=("slice_lower_n", "view", 0), typ="Nat",
          subst={}, params="", obl="", call="", model="8", imports=["Model.Py"], unfold=[]),
